@@ -54,3 +54,27 @@ Lemma f4peek_incomplete :
             found_ok d (inv_multi d)
               [LThread 0; LThread 0; LThread 0; LThread 1; LThread 1; LThread 1; LInput 1 false; LThread 0; LThread 0] = true.
 Proof. intros []; vm_cast_no_check (eq_refl true). Qed.
+
+(* the wake-up by ONE token (the setters and the callers as they were before the deadline-change
+   broadcast: fixed_skel FixAll2) does not satisfy the several-callers statement.  Thread-modular:
+   the call parks, a deadline is set (one token posted), another caller takes the token: the call
+   is parked with nothing pending and no timer for the stored deadline.  Product of two: both park,
+   a deadline is set, the caller that gets the token re-arms, the other one is left like that. *)
+Lemma single_token_leaves_multi_tm_read :
+  forall a, let d := sys_tm (fixed_skel FixAll2) Reader a in
+            found_ok d (inv_deadline_seen d) [LThread 0; LThread 0; LThread 0; LSetRD DFuture; LStealR] = true.
+Proof. intros []; vm_cast_no_check (eq_refl true). Qed.
+Lemma single_token_leaves_multi_tm_write :
+  forall a, let d := sys_tm (fixed_skel FixAll2) Writer a in
+            found_ok d (inv_deadline_seen d) [LThread 0; LThread 0; LThread 0; LSetWD DFuture; LStealW] = true.
+Proof. intros []; vm_cast_no_check (eq_refl true). Qed.
+Lemma single_token_leaves_multi_read :
+  forall a, let d := sys_change_n (fixed_skel FixAll2) Reader 2 false a in
+            found_ok d (inv_deadline_seen d)
+              [LThread 0; LThread 0; LThread 0; LThread 1; LThread 1; LThread 1; LSetRD DFuture; LThread 0] = true.
+Proof. intros []; vm_cast_no_check (eq_refl true). Qed.
+Lemma single_token_leaves_multi_write :
+  forall a, let d := sys_change_n (fixed_skel FixAll2) Writer 2 false a in
+            found_ok d (inv_deadline_seen d)
+              [LThread 0; LThread 0; LThread 0; LThread 1; LThread 1; LThread 1; LSetWD DFuture; LThread 0] = true.
+Proof. intros []; vm_cast_no_check (eq_refl true). Qed.
